@@ -185,6 +185,28 @@ func errValues(fn *ssa.Function, calls ...ssa.Value) map[ssa.Value]bool {
 			vals[c] = true
 		}
 	}
+	// sibling calls: alternative calls of the same callee whose error results are merged by a phi
+	callees := map[string]bool{}
+	for _, c := range calls {
+		if call, ok := c.(*ssa.Call); ok {
+			callees[callName(call.Common())] = true
+		}
+	}
+	siblingErr := func(v ssa.Value) bool {
+		var call *ssa.Call
+		switch x := v.(type) {
+		case *ssa.Call:
+			call = x
+		case *ssa.Extract:
+			call, _ = x.Tuple.(*ssa.Call)
+			if call != nil {
+				if tup, ok := call.Type().(*types.Tuple); !ok || x.Index != tup.Len()-1 {
+					return false
+				}
+			}
+		}
+		return call != nil && callees[callName(call.Common())] && isErrorType(v.Type())
+	}
 	changed := true
 	for changed {
 		changed = false
@@ -195,11 +217,15 @@ func errValues(fn *ssa.Function, calls ...ssa.Value) map[ssa.Value]bool {
 					continue
 				}
 				all := len(phi.Edges) > 0
+				any := false
 				for _, e := range phi.Edges {
-					if !vals[e] {
+					if vals[e] {
+						any = true
+					} else if !siblingErr(e) {
 						all = false
 					}
 				}
+				all = all && any
 				if all {
 					vals[phi] = true
 					changed = true
